@@ -103,6 +103,7 @@ type rLabel struct {
 	Exit    int      `json:"exit"`
 	Steq    bool     `json:"steq"`
 	Mode    string   `json:"mode"`
+	Shape   string   `json:"shape"` // scripted result of the served agent: normal | both (result AND error) | neither
 }
 
 type rSt struct {
@@ -701,9 +702,13 @@ func (c *rCtx) recOp(op string, a map[string]string) (lab rLabel, vr string) {
 				vr += "-errtext-differs"
 			}
 		case "listslots":
-			if !fail {
+			// four shapes: slots only, error only, slots AND error, neither (= an empty listing)
+			if !fail || r.Intn(2) == 0 {
 				for i := r.Intn(5); i > 0; i-- {
 					sc.slots = append(sc.slots, wSlots[r.Intn(7)])
+				}
+				if fail && len(sc.slots) > 0 {
+					lab.Shape, vr = "both", "slots-and-error"
 				}
 			}
 			c.rec.set(sc)
@@ -715,11 +720,32 @@ func (c *rCtx) recOp(op string, a map[string]string) (lab rLabel, vr string) {
 			if r.Intn(2) == 0 {
 				slot = strings.ReplaceAll(rndComment(r), "\x00", "")
 			}
-			if !fail {
+			// four shapes: certificate only, error only, certificate AND error, neither (nil, nil)
+			shape := "cert"
+			switch {
+			case fail && r.Intn(2) == 0:
+				shape = "both"
+			case fail:
+				shape = "err"
+			case r.Intn(8) == 0:
+				shape = "neither"
+			}
+			if c.kind >= 0 {
+				shape = []string{"cert", "err", "both", "neither"}[c.kind%4] // exported cases walk all four
+			}
+			fail = shape == "err" || shape == "both"
+			sc.err = nil
+			if fail {
+				sc.err = rndErr(r)
+			}
+			if shape == "cert" || shape == "both" {
 				sc.cert = x509Pool()[r.Intn(len(x509Pool()))]
 			}
+			if shape == "both" || shape == "neither" {
+				lab.Shape = shape
+			}
 			c.rec.set(sc)
-			vr = "slot-" + hex.EncodeToString([]byte(slot))
+			vr = shape + "-slot-" + hex.EncodeToString([]byte(slot))
 			var crt *x509.Certificate
 			if op == "readslot" {
 				crt, cerr = cl.ReadSlot(slot)
@@ -727,7 +753,7 @@ func (c *rCtx) recOp(op string, a map[string]string) (lab rLabel, vr string) {
 				crt, cerr = cl.AttestSlot(slot)
 			}
 			want = map[string][]byte{"slot": []byte(slot)}
-			lab.Reseq = fail || (crt != nil && bytes.Equal(crt.Raw, sc.cert.Raw))
+			lab.Reseq = fail || shape == "neither" || (crt != nil && bytes.Equal(crt.Raw, sc.cert.Raw))
 		case "wait":
 			w := byte(r.Intn(256))
 			c.rec.set(sc)
@@ -1229,6 +1255,9 @@ func TestVerifRpc(t *testing.T) {
 		if (plan.Cases[i].Op == "ahc_s" || plan.Cases[i].Op == "ahc_l") && reps < len(rKinds) {
 			reps = len(rKinds) // every key type
 		}
+		if (plan.Cases[i].Op == "readslot" || plan.Cases[i].Op == "attestslot") && reps < 4 {
+			reps = 4 // every result shape
+		}
 		for r := 0; r < reps; r++ {
 			c := plan.Cases[i]
 			jobs = append(jobs, rGen{Kind: "case", I: i, R: r, Seed: seed, Case: &c})
@@ -1265,13 +1294,16 @@ func TestVerifRpc(t *testing.T) {
 			if l.Slots == nil {
 				l.Slots = []string{}
 			}
+			if l.Shape == "" {
+				l.Shape = "normal"
+			}
 			recs = append(recs, rRec{Ev: "step", Fam: "r", Tid: tid, Pre: &p, E: &l, Post: rSt{H: steps[i].post}, Info: map[string]string{"var": steps[i].vr}})
 			pre = steps[i].post
 			stats["steps"]++
 			if l.Pan {
 				stats["panics"]++
 			}
-			labels[fmt.Sprintf("%s/%s/%v/%v/%v/%v/%v/%v/%d/%v", l.Mode, l.Op, l.Argeq, l.Reseq, l.Aerr, l.Cerr, l.Pan, l.Remote, l.Exit, l.Toolran)] = true
+			labels[fmt.Sprintf("%s/%s/%v/%v/%v/%v/%v/%v/%d/%v/%s", l.Mode, l.Op, l.Argeq, l.Reseq, l.Aerr, l.Cerr, l.Pan, l.Remote, l.Exit, l.Toolran, l.Shape)] = true
 			if len(samples) < 8 && stats["steps"]%211 == 1 {
 				samples = append(samples, map[string]interface{}{"tid": tid, "mode": l.Mode, "op": l.Op, "variant": steps[i].vr, "code_on_wire": l.Code,
 					"agent_method": l.Method, "args_equal": l.Argeq, "result_equal": l.Reseq, "agent_error": l.Aerr, "client_error": l.Cerr})
